@@ -168,9 +168,12 @@ def one_matrix(ctx, cid, rng, n, pat, symm, nsample):
     group = "/" if rng.random() < 0.6 else ["/a/b", "/resolutions/100"][int(rng.integers(2))]
     if group != "/" and rng.random() < 0.5:
         make_cooler(path, [["r", [0, 1, 2]]], {(0, 1): 9})         # another collection sits at the root
-    make_cooler(path + ("::" + group if group != "/" else ""), bt, P, symm=symm, mode="a",
+    E = {kk: float(int(rng.integers(-60, 60))) / 4.0 for kk in P}
+    make_cooler(path + ("::" + group if group != "/" else ""), bt, P, symm=symm, mode="a", extra={"score": E},
                 count_dtype=np.float64 if values == "dyadic" else None)
     D = model.dense(P, n, symm)
+    DE = model.dense(E, n, symm)
+    rowsE = [(k, i, j, E[(i, j)]) for k, (i, j) in enumerate(sorted(P))]
     rows = [(k, i, j, P[(i, j)]) for k, (i, j) in enumerate(sorted(P))]
     nnz = len(P)
     chunks = sorted(set([1, 2, 3, max(nnz, 1), nnz + 1])) + [10_000_000]
@@ -191,6 +194,10 @@ def one_matrix(ctx, cid, rng, n, pat, symm, nsample):
             h5 = h5f[group]
             for w in windows:
                 ok = check_window(c, api, h5, D, rows, nnz, symm, w, chunks, mkey)
+                if ok and nw % 7 == 3:
+                    # the same window through another value column
+                    ok = check_window(c, api, h5, DE, rowsE, nnz, symm, w, chunks[-2:], mkey, field="score")
+                    c.feature("field:extra-column")
                 nw += 1
                 i0, i1, j0, j1 = w
                 if i1 > i0 and j1 > j0 and D[i0:i1, j0:j1].any():
